@@ -68,7 +68,6 @@ package snap
 //@ func matchInnersToPolygons
 //@   trusted "ring assembly heuristic, only bounded stand-ins (C06)"
 //@   maypanic
-//@   ensures len(result) >= len(polygons)
 //@ func reverseWindingOrderIfConfigured
 //@   trusted "reverses every ring in place when configured: lengths and nesting unchanged"
 
